@@ -206,6 +206,28 @@ func vfC18Run(t *testing.T, ops []string, npeers int) (string, []vfC18Obs, bool)
 				if op == "n" {
 					continue // no quiescence point: the call races with whatever comes next
 				}
+			case 'Z':
+				// a call made with a context that is cancelled already: it still hands over a pending event, and fails only
+				// when there is nothing to hand over
+				if h == nil {
+					continue
+				}
+				i := ntid
+				ntid++
+				cctx, ccancel := context.WithCancel(ctx)
+				ccancel()
+				called = append(called, i)
+				ev, err := h.NextPeerEvent(cctx)
+				mu.Lock()
+				if err == nil {
+					rets = append(rets, ret{i, ev})
+				}
+				done[i] = true
+				mu.Unlock()
+				acts = append(acts, fmt.Sprintf("ACall %d", i))
+				if err != nil {
+					acts = append(acts, fmt.Sprintf("ACancelT %d", i))
+				}
 			case 'K':
 				// cancel the k-th call that was parked at the last quiescence point
 				blocked := vfSortedInts(prevBlocked)
@@ -269,10 +291,10 @@ func vfC18Ty(t EventType) string {
 func TestVF_C18(t *testing.T) {
 	cs := vfNewCases(t, "c18", "From PS Require Import Model.EventLog Run.C18Run.", "list hop", "check_case")
 	rng := vfRng(18)
-	alphabet := []string{"S0", "S1", "U0", "U1", "D0", "D1", "C", "N", "N", "K0", "X"}
+	alphabet := []string{"S0", "S1", "U0", "U1", "D0", "D1", "C", "N", "N", "K0", "X", "Z"}
 	// exhaustive short sequences over two peers (quick: length <= 3, thorough: length <= 5)
 	maxLen := vfN(3, 5)
-	exh := []string{"S0", "S1", "U0", "D1", "C", "N", "K0"}
+	exh := []string{"S0", "S1", "U0", "D1", "C", "N", "K0", "Z"}
 	var gen func(prefix []string, depth int)
 	nexh := 0
 	gen = func(prefix []string, depth int) {
@@ -326,8 +348,10 @@ func TestVF_C18(t *testing.T) {
 				op = "N"
 			case r < 88:
 				op = "n"
-			case r < 97:
+			case r < 93:
 				op = fmt.Sprintf("K%d", rng.Intn(4))
+			case r < 97:
+				op = "Z"
 			case r < 98:
 				op = "X"
 			default:
